@@ -465,6 +465,16 @@ def listing_fn(listing):
     return fn
 
 
+def package_frame(ex):
+    """-> "module.function" of the innermost traceback frame inside the wannierberri package (None if there is none)"""
+    pkg = os.path.dirname(os.path.abspath(wb.__file__)) + os.sep
+    for f in reversed(traceback.extract_tb(ex.__traceback__)):
+        fn = os.path.abspath(f.filename)
+        if fn.startswith(pkg):
+            return os.path.splitext(fn[len(pkg):])[0].replace(os.sep, ".") + "." + f.name
+    return None
+
+
 def raised_by_package(ex):
     """-> "module.function" if the innermost frame that is neither third-party nor harness is in wannierberri"""
     from .main import raised_by_code_under_test
@@ -770,6 +780,10 @@ class World:
         except Exception as ex:
             site = raised_by_package(ex)
             text = "".join(traceback.format_exception_only(type(ex), ex)).strip()
+            if site is None and isinstance(ex, OSError) and self._own_file(ex) and package_frame(ex) is not None:
+                # OSError is normally the environment's, but not when run() misses (or cannot write) one of ITS OWN files
+                # in the directory of this world: a restart that the specification allows must exist at all
+                site = ("run:restart" if restart else "run:fresh")
             if site is not None:
                 err = text
                 self.errors.append(dict(site=site, type=type(ex).__name__, text=text[:400], at_event=len(self.events),
@@ -810,6 +824,11 @@ class World:
                         self.private_gone.append(str(ex))
                     self.events.append(ev)
         return res, err
+
+    def _own_file(self, ex):
+        names = [str(x) for x in (getattr(ex, "filename", None), getattr(ex, "filename2", None)) if x]
+        root = os.path.abspath(self.dir)
+        return any(os.path.abspath(n).startswith(root) for n in names)
 
     def mark(self, name, **kw):
         self.events.append(dict(e=name, **kw))
